@@ -299,3 +299,121 @@ func checkAttrNameContinuation(p *Program, r *Report, rule string) {
 	r.Check(n > 0, rule, c, p.Pos(fn.Pos()), "the continuation of an attribute name is appended to attr.name",
 		"the attribute-name state consumes the rest of a name that started in an earlier text node without recording it in attr.name: the value is sanitized for the prefix only (src instead of srcdoc)")
 }
+
+// checkOpaqueBodyNotUndone: at the end of a start tag the element name alone decides whether the text that
+// follows is an opaque (raw-text / RCDATA) body. Once the tag function has chosen the opaque-body state, nothing
+// on the way to its return may take the element away again or reset the state unless the name is known not to be
+// one of the opaque-body elements (a lookup in a table disjoint from theirs, e.g. the void elements): browsers
+// ignore the self-closing flag on HTML elements, so "<textarea/>" still opens an RCDATA body.
+func checkOpaqueBodyNotUndone(p *Program, r *Report, rule string) {
+	tmp := NewReport(r.Property, r.Tier, r.Seed)
+	tagFn, table := findOpaqueBodyTable(p, tmp, rule)
+	if tagFn == nil {
+		r.Obls = append(r.Obls, tmp.Obls...)
+		return
+	}
+	tl, err := p.VarLit("template", cname(table))
+	if err != nil {
+		r.Undec(rule, "template."+table.Name(), "", err.Error())
+		return
+	}
+	special, err := tl.StringBoolSet()
+	if err != nil {
+		r.Undec(rule, "template."+table.Name(), "", err.Error())
+		return
+	}
+	tpk := p.Pkg("template")
+	stObj := tpk.Types.Scope().Lookup("state")
+	var specialState int64 = -1
+	for v, n := range ConstNames(tpk, stObj.Type()) {
+		if n == "stateSpecialElementBody" {
+			specialState = v
+		}
+	}
+	disjointTable := func(g *ssa.Global) bool {
+		l, err := p.VarLit("template", cname(g))
+		if err != nil {
+			return false
+		}
+		set, err := l.StringBoolSet()
+		if err != nil {
+			return false
+		}
+		for k := range set {
+			if special[k] {
+				return false
+			}
+		}
+		return true
+	}
+	n := 0
+	for _, f := range opaqueScope {
+		short := strings.TrimPrefix(fnName(f), pkgTemplate+".")
+		// blocks that store the opaque-body state
+		var chosen []*ssa.BasicBlock
+		for _, st := range storesToField(f, pkgTemplate, "context", "state") {
+			if k, ok := constInt(st.Val); ok && k == specialState {
+				chosen = append(chosen, st.Block())
+			}
+		}
+		if len(chosen) == 0 {
+			continue
+		}
+		var undo []*ssa.Store
+		for _, st := range storesToField(f, pkgTemplate, "context", "state") {
+			if k, ok := constInt(st.Val); ok && k != specialState {
+				undo = append(undo, st)
+			}
+		}
+		for _, st := range storesToField(f, pkgTemplate, "context", "element") {
+			if isZeroConst(st.Val) {
+				undo = append(undo, st)
+			}
+		}
+		for _, st := range undo {
+			after := false
+			for _, cb := range chosen {
+				if cb == st.Block() {
+					for _, in := range cb.Instrs {
+						if s2, ok := in.(*ssa.Store); ok && s2 != st {
+							if k, ok := constInt(s2.Val); ok && k == specialState && before(s2, st) {
+								after = true
+							}
+						}
+					}
+				} else if blockReaches(cb, st.Block()) {
+					after = true
+				}
+			}
+			if !after {
+				continue
+			}
+			n++
+			guarded := false
+			for _, g := range GuardsOf(st.Block()) {
+				lk, ok := g.Cond.(*ssa.Lookup)
+				if !ok {
+					continue
+				}
+				u, ok := lk.X.(*ssa.UnOp)
+				if !ok {
+					continue
+				}
+				gl, ok := u.X.(*ssa.Global)
+				if !ok {
+					continue
+				}
+				if (g.Pol && gl != table && disjointTable(gl)) || (!g.Pol && gl == table) {
+					guarded = true
+				}
+			}
+			fa := st.Addr.(*ssa.FieldAddr)
+			cn := fmt.Sprintf("%s#undoes-opaque-body:%s", short, fieldName(fa.X.Type(), fa.Field))
+			r.Check(guarded, rule, cn, p.Pos(st.Pos()), "after the opaque-body state was chosen, the element is dropped only for names looked up in a table disjoint from "+table.Name(),
+				"after the tag function has chosen the opaque-body state for the element, it can drop the element or reset the state without knowing that the name is not one of "+fmt.Sprint(sortedKeys(special))+": the browser still parses the following text as a raw-text/RCDATA body ("+`<textarea/>{{.}}</textarea> passes a safehtml.HTML value unescaped`+")")
+		}
+	}
+	if n == 0 {
+		r.OK(rule, "template."+strings.TrimPrefix(fnName(tagFn), pkgTemplate+".")+"#undoes-opaque-body", p.Pos(tagFn.Pos()), "nothing resets the state or the element after the opaque-body state was chosen")
+	}
+}
